@@ -456,6 +456,10 @@ func (p *parser) parseASCII(minLength, maxLength int) (item ast.ItemNode, ok boo
 
 			if _, ok := p.variableNames[t.val]; ok {
 				p.errorf(t, "duplicated variable name %q", t.val)
+				if minLength > ast.MAX_BYTE_SIZE {
+					// No ASCII item can be that long; don't build a placeholder
+					return ast.NewEmptyItemNode(), false
+				}
 				return ast.NewASCIINode(strings.Repeat("*", minLength)), true
 			} else {
 				p.variableNames[t.val] = true
